@@ -45,6 +45,13 @@ Fixpoint while_ret {S R} (fuel : nat) (body : S -> res (wout S R)) (s : S) : res
       end
   end.
 
+(* for x in v.drain(..) / for x in v: the elements in order *)
+Fixpoint for_in {S X} (l : list X) (body : X -> S -> res S) (s : S) : res S :=
+  match l with
+  | [] => Ok s
+  | x :: t => let* s' := body x s in for_in t body s'
+  end.
+
 (* Option::unwrap / Result::unwrap *)
 Definition unwrap_opt {X} (o : option X) : res X :=
   match o with Some x => Ok x | None => Panic Unwrap end.
